@@ -18,6 +18,8 @@ use std::process::{Child, ChildStdin, ChildStdout, Command, Stdio};
 
 pub use serde_json::{Value, json};
 
+pub mod hist;
+
 pub const EXIT_OK: i32 = 0;
 pub const EXIT_ORACLE: i32 = 10;
 pub const EXIT_DISAGREE: i32 = 11;
